@@ -252,7 +252,7 @@ func (f *Frame) run() {
 		b := fn.Blocks[bi]
 		if r, ok := b.Instrs[len(b.Instrs)-1].(*ssa.Return); ok {
 			var res []AV
-			for _, x := range r.Results {
+			for _, x := range retResults(r) {
 				res = append(res, f.Eval(x))
 			}
 			f.Returns = append(f.Returns, res)
